@@ -6,7 +6,7 @@ CONSTANTS
   N = 10
   MaxSegs = 5
   Starts = {0, 5}
-  KFShortSerial = TRUE
-  FixShortSerial = FALSE
+  KFShortSerial = FALSE
+  FixShortSerial = TRUE
 INVARIANTS Property Bounded Numbered Emit
 PROPERTY Terminates
